@@ -49,7 +49,39 @@ def run_case(case):
              "probes": dict(progdrv.count_features(case["prog"]))}
     holder = {}
 
+    def negative_constant_offsets():
+        """A part select whose *constant* offset is negative addresses bits below bit 0 - outside the target: either the
+        statement is refused when it is built (the documented TypeError for a signed offset), or no bit of the target changes.
+        (Variable offsets are unsigned by construction; the generated programs cover those.)"""
+        from amaranth.hdl import Module, Signal, Const
+        from amaranth.sim import Simulator
+        n = len(case["steps"])
+        w = 2 + n % 7
+        off = -(1 + n % (w + 2))
+        width = 1 + n % 3
+        for offset in (off, Const(off, 5)):
+            for sel in ("bit_select", "word_select"):
+                a = Signal(w, init=(0x5a5a >> (n % 5)) & ((1 << w) - 1), name="a")
+                m = Module()
+                try:
+                    m.d.comb += getattr(a, sel)(offset, width).eq(-1)
+                except (TypeError, ValueError, IndexError):
+                    stats["probes"]["negative_constant_offset_refused"] = 1
+                    continue
+                got = []
+
+                async def tb(ctx):
+                    got.append(ctx.get(a))
+                sim = Simulator(m)
+                sim.add_testbench(tb)
+                sim.run()
+                if got != [a.init]:
+                    raise Violation("negative_constant_offset_writes_bits", -1, {"select": sel, "offset": off, "width": width,
+                                                                                 "target_width": w, "got": got[0], "init": a.init})
+
     def go():
+        if len(case["steps"]) % 8 == 0:
+            negative_constant_offsets()
         holder["pr"] = progdrv.ProgRun(case, stats)
         holder["pr"].execute()
 
